@@ -6,6 +6,7 @@ import (
 	"go/token"
 	"os"
 	"path/filepath"
+	"sort"
 	"strconv"
 	"strings"
 )
@@ -266,6 +267,48 @@ func (p *c05Pkg) assignedFrom(fn, name string) string {
 	return res
 }
 
+// callSites lists "Caller: call(args) [in range X]" for every call of method/function `name` in the package
+func (p *c05Pkg) callSites(name string) []string {
+	var res []string
+	for caller, fd := range p.funcs {
+		if fd.Body == nil {
+			continue
+		}
+		var walk func(n ast.Node, loop string)
+		walk = func(n ast.Node, loop string) {
+			ast.Inspect(n, func(m ast.Node) bool {
+				switch x := m.(type) {
+				case *ast.RangeStmt:
+					if m == n {
+						return true
+					}
+					walk(x.Body, "range "+exprString(x.X))
+					return false
+				case *ast.CallExpr:
+					fn := ""
+					switch f := x.Fun.(type) {
+					case *ast.SelectorExpr:
+						fn = f.Sel.Name
+					case *ast.Ident:
+						fn = f.Name
+					}
+					if fn == name {
+						s := caller + ": " + c05Expr(x)
+						if loop != "" {
+							s += " [in " + loop + "]"
+						}
+						res = append(res, s)
+					}
+				}
+				return true
+			})
+		}
+		walk(fd.Body, "")
+	}
+	sort.Strings(res)
+	return res
+}
+
 func extractC05() *lean {
 	l := newLean("C05", "NutsModel.C05.OneTime")
 	l.sb.WriteString("open Nuts.C05\n")
@@ -332,6 +375,24 @@ func extractC05() *lean {
 	l.def("pifCalls", "List String", leanStrList(pseq), pseq)
 	l.def("pifShape", "MarkShape", pshape, pshape)
 
+	// storage/engine.go: one session database per engine, built in Configure, handed out as is
+	stor := c05Load("storage")
+	ret := "NOT-FOUND"
+	if fd := stor.funcs["engine.GetSessionDatabase"]; fd != nil && fd.Body != nil && len(fd.Body.List) == 1 {
+		if r, ok := fd.Body.List[0].(*ast.ReturnStmt); ok && len(r.Results) == 1 {
+			ret = c05Expr(r.Results[0])
+		}
+	}
+	l.def("engineGetSessionDatabase", "String", fmt.Sprintf("%q", ret), ret)
+	var ctor []string
+	for _, c := range []string{"NewInMemorySessionDatabase", "NewRedisSessionDatabase", "NewMemcachedSessionDatabase"} {
+		for _, site := range stor.callSites(c) {
+			ctor = append(ctor, site[:strings.Index(site, ":")]+":"+c)
+		}
+	}
+	sort.Strings(ctor)
+	l.def("sessionDbConstructions", "List String", leanStrList(ctor), ctor)
+
 	// in-memory and redis key construction: strings.Join(append(prefixes, key), sep)
 	for _, f := range []struct{ name, file string }{{"memKeySep", "storage/session_inmemory.go"}, {"redisKeySep", "storage/session_redis.go"}} {
 		_, af := parseFile(f.file)
@@ -378,6 +439,52 @@ func extractC05() *lean {
 	}
 	src := iam.assignedFrom("validateS2SPresentationNonce", "nonce")
 	l.def("s2sNonceSource", "String", fmt.Sprintf("%q", src), src)
+
+	// where the consumers are called from, and with what
+	for _, c := range []struct{ name, fn string }{
+		{"sitesCode", "handleAccessTokenRequest"}, {"sitesS2S", "handleS2SAccessTokenRequest"},
+		{"sitesVpNonce", "validatePresentationNonce"}, {"sitesS2SNonce", "validateS2SPresentationNonce"},
+		{"sitesExtractNonce", "extractNonce"}, {"sitesExtractChallenge", "extractChallenge"}} {
+		sites := iam.callSites(c.fn)
+		l.def(c.name, "List String", leanStrList(sites), sites)
+	}
+
+	// the loop that checks the nonce of every presentation of an s2s envelope: its statements that leave it early
+	var early []string
+	if fd := iam.funcs["handleS2SAccessTokenRequest"]; fd != nil && fd.Body != nil {
+		ast.Inspect(fd.Body, func(n ast.Node) bool {
+			rs, ok := n.(*ast.RangeStmt)
+			if !ok {
+				return true
+			}
+			has := false
+			ast.Inspect(rs.Body, func(m ast.Node) bool {
+				if c, ok := m.(*ast.CallExpr); ok {
+					if sel, ok := c.Fun.(*ast.SelectorExpr); ok && sel.Sel.Name == "validateS2SPresentationNonce" {
+						has = true
+					}
+				}
+				return true
+			})
+			if has {
+				ast.Inspect(rs.Body, func(m ast.Node) bool {
+					switch x := m.(type) {
+					case *ast.BranchStmt:
+						early = append(early, x.Tok.String())
+					case *ast.ReturnStmt:
+						var rr []string
+						for _, e := range x.Results {
+							rr = append(rr, c05Expr(e))
+						}
+						early = append(early, "return "+strings.Join(rr, ", "))
+					}
+					return true
+				})
+			}
+			return true
+		})
+	}
+	l.def("s2sNonceLoopExits", "List String", leanStrList(early), early)
 
 	// every function of the package that touches one of the one-time stores (a new consumer needs a model)
 	users := map[string]bool{}
